@@ -1,6 +1,11 @@
 import M3d.Lemmas.CollideWrap
 import M3d.Lemmas.CollideBall
 import M3d.Lemmas.CollideXf
+import M3d.Lemmas.CollideParity
+import M3d.Lemmas.CollideCyl
+import M3d.Lemmas.CollideCone
+import M3d.Lemmas.CollideJordan
+import M3d.Lemmas.CollideJordan2
 import Mathlib.Algebra.Order.Field.Rat
 /-!
 # C07 — Colliders report consistent ray and ball collisions
@@ -252,16 +257,116 @@ theorem cone_normal_perpendicular (radial hv tang : V3 K) (h radius : K) (hh : 0
   ⟨coneNormal_orthogonal radial hv tang h radius hh hunit horth hnorm ht1 ht2 hR,
    coneNormal_old_wrong radial hv h radius hunit horth hnorm⟩
 
+/-! ## (2b) Cylinder and Capsule: reported collisions lie on the surface with the unit outward normal -/
+
+/-- **`cylinder_hits_on_surface`** (`Cylinder.RayCollisions`: quadratic for the lateral surface, `castCircle`
+for the two discs).  With `v = (P2-P1).Normalize()` (a unit vector), `z = (P - P1)·v` the axial coordinate of the
+hit point `P = o + t·d` and `radialVec` its component orthogonal to `v`: every reported collision has `t ≥ 0`, a
+unit normal, and is
+* on the lateral surface — `|radialVec|² = r²`, `0 ≤ z < |P2-P1|` — with the normal a positive multiple of
+  `radialVec` (outward), or
+* on the base disc — `z = 0`, `|radialVec|² ≤ r²` — with the normal `-v`, or
+* on the top disc — `z = |P2-P1|`, `|radialVec|² ≤ r²` — with the normal `v`;
+and conversely every ray point with `t ≥ 0` on the lateral surface is reported when the discriminant is
+positive (tangent rays, `disc ≤ 0`, report no side collision).  For rays neither parallel to the axis (`a ≠ 0`)
+nor orthogonal to it (`d·v ≠ 0`). -/
+theorem cylinder_hits_on_surface {sqrtF : K → K} (hs : SqrtOK sqrtF) (eps : K) (p1 p2 : V3 K) (r : K)
+    (o d : V3 K) (hax : (p2.sub p1).dot (p2.sub p1) ≠ 0) (hr : 0 < r)
+    (hnp : cylA ((p2.sub p1).normalize sqrtF) d ≠ 0) (hdv : d.dot ((p2.sub p1).normalize sqrtF) ≠ 0) :
+    (∀ h ∈ cylHits sqrtF eps p1 p2 r o d,
+      let v := (p2.sub p1).normalize sqrtF
+      let P := o.along d h.t
+      v.dot v = 1 ∧ 0 ≤ h.t ∧ h.n.dot h.n = 1 ∧
+      ((radialSq p1 v P = r * r ∧ 0 ≤ axialZ p1 v P ∧ axialZ p1 v P < (p2.sub p1).norm sqrtF ∧
+          ∃ k, 0 < k ∧ h.n = (radialVec p1 v P).scale k) ∨
+       (axialZ p1 v P = 0 ∧ radialSq p1 v P ≤ r * r ∧ h.n = v.scale (-1)) ∨
+       (axialZ p1 v P = (p2.sub p1).norm sqrtF ∧ radialSq p1 v P ≤ r * r ∧ h.n = v))) ∧
+    (0 < cylDisc ((p2.sub p1).normalize sqrtF) (o.sub p1) d r → ∀ t, 0 ≤ t →
+      radialSq p1 ((p2.sub p1).normalize sqrtF) (o.along d t) = r * r →
+      0 ≤ axialZ p1 ((p2.sub p1).normalize sqrtF) (o.along d t) →
+      axialZ p1 ((p2.sub p1).normalize sqrtF) (o.along d t) < (p2.sub p1).norm sqrtF →
+      ∃ h ∈ cylHits sqrtF eps p1 p2 r o d, h.t = t) ∧
+    (∀ P : V3 K, (radialVec p1 ((p2.sub p1).normalize sqrtF) P).dot ((p2.sub p1).normalize sqrtF) = 0) := by
+  refine ⟨fun h hm => cyl_sound hs eps p1 p2 r o d hax hr hnp hdv h hm, ?_, ?_⟩
+  · intro hdisc t ht hon hz0 hz1
+    obtain ⟨h, hm, hht⟩ := cylSide_complete hs p1 p2 r o d hnp hdisc t ht hon hz0 hz1
+    refine ⟨h, ?_, hht⟩
+    unfold cylHits
+    exact List.mem_append_left _ (List.mem_append_left _ hm)
+  · intro P
+    exact radialVec_orth p1 _ P (V3.normalize_unit hs _ hax)
+
+/-- **`capsule_hits_on_surface`** (`Capsule.RayCollisions`): the collisions it reports are candidates
+(`capsule_phantom_contract`: a minimum and a maximum of them), and every candidate — a collision with an end
+sphere kept on its outer half, or with the lateral surface — has `t ≥ 0`, a unit normal, and lies on the
+capsule's surface: on the sphere around `P1` with `z ≤ 0`, on the sphere around `P2` with `z ≥ |P2-P1|`, or at
+distance `r` from the axis with `0 ≤ z < |P2-P1|`; the normal is a positive multiple of the vector from the
+nearest point of the segment `P1 P2` (`P1`, `P2`, resp. the foot on the axis) to the hit point — outward. -/
+theorem capsule_hits_on_surface {sqrtF : K → K} (hs : SqrtOK sqrtF) (p1 p2 : V3 K) (r : K) (o d : V3 K)
+    (hax : (p2.sub p1).dot (p2.sub p1) ≠ 0) (hr : r ≠ 0) (hd : d.dot d ≠ 0)
+    (hnp : cylA ((p2.sub p1).normalize sqrtF) d ≠ 0) (h : Hit K)
+    (hm : h ∈ ((capsuleCollider sqrtF p1 p2 r).ray (o, d) true).2) :
+    let v := (p2.sub p1).normalize sqrtF
+    let P := o.along d h.t
+    h ∈ capsuleCands sqrtF p1 p2 r o d ∧ 0 ≤ h.t ∧ h.n.dot h.n = 1 ∧
+    ((P.distSq p1 = r * r ∧ axialZ p1 v P ≤ 0 ∧ ∃ k, 0 < k ∧ h.n = (P.sub p1).scale k) ∨
+     (P.distSq p2 = r * r ∧ (p2.sub p1).norm sqrtF ≤ axialZ p1 v P ∧ ∃ k, 0 < k ∧ h.n = (P.sub p2).scale k) ∨
+     (radialSq p1 v P = r * r ∧ 0 ≤ axialZ p1 v P ∧ axialZ p1 v P < (p2.sub p1).norm sqrtF ∧
+        ∃ k, 0 < k ∧ h.n = (radialVec p1 v P).scale k)) := by
+  intro v P
+  have hc : h ∈ capsuleCands sqrtF p1 p2 r o d := capsuleSelect_calls_mem Hit.t _ _ h hm
+  exact ⟨hc, capsule_cands_sound hs p1 p2 r o d hax hr hd hnp h hc⟩
+
+/-- **`cone_hits_on_surface`** (`Cone.RayCollisions`, complete model `coneHits`: side polynomial through
+`numerical.Polynomial`, its roots through the linear / quadratic branch of `IterRealRoots`, `safeNormal`,
+`castCircle` for the base).  With `ax` the unit axis from the tip to the base, `L = |Base - Tip| > 0`,
+`z = (P - Tip)·ax` and `radialVec` the component of `P - Tip` orthogonal to `ax`, every reported collision has
+`t ≥ 0`, a unit normal, and lies
+* on the lateral surface — `0 ≤ z ≤ L`, `|radialVec|² = (z·R/L)²` — with the normal
+  `normalize(u·L + (Tip-Base)·R/L)` where `u` is a unit vector orthogonal to the axis: the unit radial direction
+  of the hit point (a positive multiple of `radialVec`), or the fallback `b1` of `safeNormal` (hit point on the
+  axis, i.e. the apex) — by `cone_normal_perpendicular` that vector is orthogonal to the generator and to the
+  base tangent and points outwards; or
+* on the base disc — `z = L`, `|radialVec|² ≤ R²` — with the normal `ax`.
+Moreover the roots handed to the side filter are exactly the roots of the side polynomial (`polyRoots2`, unless
+the polynomial vanishes identically: a ray inside the cone's surface).  For a ray not parallel to the base. -/
+theorem cone_hits_on_surface {sqrtF : K → K} (hs : SqrtOK sqrtF) (eps tol : K) (htol : 0 < tol)
+    (tip base : V3 K) (radius : K) (hr : 0 < radius) (o d : V3 K)
+    (hax : (base.sub tip).dot (base.sub tip) ≠ 0) (hdv : d.dot (coneAxis sqrtF tip base) ≠ 0) :
+    (∀ h ∈ coneHits sqrtF eps tol tip base radius o d,
+      let ax := coneAxis sqrtF tip base
+      let L := (base.sub tip).norm sqrtF
+      let P := o.along d h.t
+      ax.dot ax = 1 ∧ 0 < L ∧ 0 ≤ h.t ∧ h.n.dot h.n = 1 ∧
+      ((0 ≤ axialZ tip ax P ∧ axialZ tip ax P ≤ L ∧
+          radialSq tip ax P = (axialZ tip ax P * radius / L) * (axialZ tip ax P * radius / L) ∧
+          ∃ u : V3 K, u.dot u = 1 ∧ u.dot ax = 0 ∧
+            (u = (coneBasis sqrtF tip base).1 ∨ ∃ k, 0 < k ∧ u = (radialVec tip ax P).scale k) ∧
+            h.n = (coneNormalDir u (tip.sub base) L radius).normalize sqrtF) ∨
+       (axialZ tip ax P = L ∧ radialSq tip ax P ≤ radius * radius ∧ h.n = ax))) ∧
+    (∀ k0 k1 k2 : K, (∀ t ∈ polyRoots2 sqrtF k0 k1 k2, k0 + k1 * t + k2 * t * t = 0) ∧
+      (¬ (k0 = 0 ∧ k1 = 0 ∧ k2 = 0) → ∀ t, k0 + k1 * t + k2 * t * t = 0 → t ∈ polyRoots2 sqrtF k0 k1 k2)) :=
+  ⟨fun h hm => cone_sound hs eps tol htol tip base radius hr o d hax hdv h hm,
+   fun k0 k1 k2 => polyRoots2_spec hs k0 k1 k2⟩
+
+/-- non-vacuity: the quadratic branch of `IterRealRoots` on `t² - 3t + 2` (roots `1, 2`, smaller first), the
+linear branch on `2t - 1`, no real root for `t² + 1` (`sqrtF` = identity suffices where the discriminant is 1) -/
+example :
+    polyRoots2 (fun x : ℚ => x) 2 (-3) 1 = [1, 2] ∧ polyRoots2 (fun x : ℚ => x) (-1) 2 0 = [1 / 2] ∧
+    polyRoots2 (fun x : ℚ => x) 1 0 1 = [] := by
+  refine ⟨?_, ?_, ?_⟩ <;> decide +kernel
+
 /-! ## (3) parity -/
 
 /-- **`parity_inside_box_partial`** — the single-convex-cell version of `parity_inside` for `Rect`: for a
 ray whose origin is not on the entry plane (general position), the number of reported collisions is odd
 iff the origin is in the box.
-*Missing for the full statement*: for an arbitrary closed orientable (edge-balanced) triangle soup and a ray
-meeting no edge or vertex, "crossings odd ⇔ origin inside (winding number ≠ 0)" needs a Jordan–Brouwer type
-argument (invariance of the signed crossing number under moving the ray), which is not formalised; for
-meshes, tori, cones, profiles and transformed shapes it is checked on the real code against an independent
-winding-number / analytic containment computation by the harness (`c07:parity-vs-contains/*`). -/
+(`_partial`: one convex cell.  The general statements are `parity_inside_convex` — every convex solid given by
+half-spaces —, `parity_inside_convex_mesh` — closed convex meshes on the model's hit list — and
+`parity_direction_independent` / `parity_inside_closed_mesh` — arbitrary closed triangle meshes: the parity does
+not depend on the direction and agrees with `ColliderContains`.  Tori, cones, capsules, cylinders, profiles and
+transformed shapes are checked on the real code against an independent winding-number / analytic containment
+computation by the harness, `c07:parity-vs-contains/*`.) -/
 theorem parity_inside_box_partial (lo hi o d : V3 K) (hbox : lo.x ≤ hi.x ∧ lo.y ≤ hi.y ∧ lo.z ≤ hi.z) (mn mx : K)
     (h : slabLoop (axes3 o d lo hi) none none = (some mn, some mx)) (hgen : mn ≠ 0) :
     (rectTs lo hi o d).length % 2 = 1 ↔ InBox lo hi o :=
@@ -273,6 +378,225 @@ theorem parity_inside_sphere_partial {sqrtF : K → K} (hs : SqrtOK sqrtF) (cent
     (o d : V3 K) (hd : d.dot d ≠ 0) (hgen : o.distSq center ≠ radius * radius) :
     (sphereHits sqrtF center radius o d).length % 2 = 1 ↔ o.distSq center < radius * radius :=
   parity_sphere hs center radius o d hd hgen
+
+/-- **`parity_inside_convex`** — `parity_inside` for **every convex solid given as an intersection of
+half-spaces** `n·x ≤ b` (boxes, prisms, convex polytopes, convex meshes).  If a collider's reported parameters
+`ts` are, without repetition, exactly the parameters `t ≥ 0` at which the ray is on the solid's surface, then
+for a ray in general position — not parallel to any face plane, origin not on the surface, the face planes active
+at a surface point of the ray all crossed in the same sense (the ray does not enter and leave through one edge
+or vertex) — and a solid that is bounded in the direction of the ray, the count is odd iff the origin is
+(strictly) inside.  (`parity_inside_box_partial` is the instance with six axis-aligned half-spaces.) -/
+theorem parity_inside_convex (hs : List (V3 K × K)) (o d : V3 K)
+    (hpar : ∀ h ∈ hs, h.1.dot d ≠ 0) (hexit : ∃ h ∈ hs, 0 < h.1.dot d) (horigin : ¬ OnBoundary hs o)
+    (hsame : ∀ t, InPoly hs (o.along d t) → ∀ h1 ∈ hs, ∀ h2 ∈ hs, halfVal h1 (o.along d t) = 0 →
+      halfVal h2 (o.along d t) = 0 → (0 < h1.1.dot d ↔ 0 < h2.1.dot d))
+    (ts : List K) (hnd : ts.Nodup) (hts : ∀ t, t ∈ ts ↔ 0 ≤ t ∧ OnBoundary hs (o.along d t)) :
+    ts.length % 2 = 1 ↔ StrictIn hs o :=
+  parity_convex hs o d hpar hexit horigin hsame ts hnd hts
+
+/-- **`parity_inside_convex_mesh`** — the same **on the model's hit list of a closed convex triangle mesh**:
+`faces` triangulates the boundary of the convex solid cut out by its own (outward oriented) face planes — every
+face lies in the solid (`hon`), every surface point lies in some face (`hcover`).  The count returned by the
+mesh collider (`JoinedCollider` over `Triangle.RayCollisions`, whatever admitting bounds prefilter) is the
+length of the hit list `meshTs`, a parameter is in that list iff `t ≥ 0` and the ray point lies in some face
+(Möller–Trumbore, `triangle_hit_iff`), and for a ray in general position (no face plane parallel to it or
+rejected as near-parallel, origin not on the surface, no two reported collisions coinciding — the ray meets no
+edge shared by two faces) the count is odd iff the origin is inside.
+(Non-convex closed meshes: `parity_direction_independent`, `parity_inside_closed_mesh` below.) -/
+theorem parity_inside_convex_mesh (sqrtF : K → K) (eps : K) (faces : List (Tri K)) (o d : V3 K)
+    (admits : V3 K × V3 K → Bool) (ha : admits (o, d) = true)
+    (hon : ∀ F ∈ faces, ∀ x, InTri F x → InPoly (faces.map facePlane) x)
+    (hcover : ∀ x, OnBoundary (faces.map facePlane) x → ∃ F ∈ faces, InTri F x)
+    (hnp : ∀ F ∈ faces, ¬ triNearPar sqrtF eps F.1 F.2.1 F.2.2 d)
+    (hpar : ∀ F ∈ faces, (facePlane F).1.dot d ≠ 0) (hexit : ∃ F ∈ faces, 0 < (facePlane F).1.dot d)
+    (horigin : ¬ OnBoundary (faces.map facePlane) o)
+    (hsame : ∀ t, InPoly (faces.map facePlane) (o.along d t) → ∀ h1 ∈ faces.map facePlane,
+      ∀ h2 ∈ faces.map facePlane, halfVal h1 (o.along d t) = 0 → halfVal h2 (o.along d t) = 0 →
+        (0 < h1.1.dot d ↔ 0 < h2.1.dot d))
+    (hnd : (meshTs sqrtF eps faces o d).Nodup) :
+    (∀ cb, ((joined Hit.t admits (faces.map fun F => triCollider sqrtF eps F.1 F.2.1 F.2.2)).ray (o, d) cb).1 =
+        (meshTs sqrtF eps faces o d).length) ∧
+    (∀ t, t ∈ meshTs sqrtF eps faces o d ↔ 0 ≤ t ∧ ∃ F ∈ faces, InTri F (o.along d t)) ∧
+    ((meshTs sqrtF eps faces o d).length % 2 = 1 ↔ StrictIn (faces.map facePlane) o) :=
+  ⟨fun cb => meshTs_length sqrtF eps faces o d admits ha cb,
+   fun t => mem_meshTs_iff sqrtF eps faces o d hnp hpar t,
+   parity_convex_mesh sqrtF eps faces o d hon hcover hnp hpar hexit horigin hsame hnd⟩
+
+/-- non-vacuity of `parity_inside_convex`: the slab `0 ≤ x ≤ 1` and the ray from `(1/2, 0, 0)` along `+x`: one
+reported collision (`t = 1/2`), origin inside. -/
+example :
+    ([(1 / 2 : ℚ)].length % 2 = 1 ↔
+      StrictIn [((⟨1, 0, 0⟩ : V3 ℚ), (1 : ℚ)), (⟨-1, 0, 0⟩, 0)] ⟨1 / 2, 0, 0⟩) := by
+  apply parity_inside_convex _ ⟨1 / 2, 0, 0⟩ ⟨1, 0, 0⟩
+  · intro h hh
+    simp only [List.mem_cons, List.mem_nil_iff, or_false] at hh
+    rcases hh with rfl | rfl <;> norm_num [V3.dot]
+  · exact ⟨(⟨1, 0, 0⟩, 1), by simp, by norm_num [V3.dot]⟩
+  · rintro ⟨_, h, hh, h0⟩
+    simp only [List.mem_cons, List.mem_nil_iff, or_false] at hh
+    rcases hh with rfl | rfl <;> norm_num [halfVal, V3.dot] at h0
+  · intro t _ h1 hh1 h2 hh2 a1 a2
+    simp only [List.mem_cons, List.mem_nil_iff, or_false] at hh1 hh2
+    rcases hh1 with rfl | rfl <;> rcases hh2 with rfl | rfl <;>
+      norm_num [halfVal, V3.dot, V3.along, V3.add, V3.scale] at a1 a2 ⊢ <;> linarith
+  · simp
+  · intro t
+    simp only [OnBoundary, InPoly, List.mem_cons, List.mem_nil_iff, or_false, forall_eq_or_imp,
+      forall_eq, exists_eq_or_imp, exists_eq_left, halfVal, V3.dot, V3.along, V3.add, V3.scale]
+    constructor
+    · rintro rfl; norm_num
+    · rintro ⟨h0, ⟨h1, h2⟩, h3 | h3⟩ <;> linarith
+
+/-- **`parity_direction_independent`** — the crossing-number argument **for closed triangle meshes, on the
+model's hit list**: for a mesh that is closed (every undirected edge is used by an even number of faces — twice,
+once in each direction, for an oriented manifold mesh) and two rays from the same origin `o` with linearly
+independent directions `d1`, `d2` in general position, the mesh collider (`JoinedCollider` over
+`Triangle.RayCollisions`) reports the **same number of collisions modulo 2** along both.
+
+General position (`faceGP`, for every face): no vertex lies in the plane spanned by the two rays, an edge crossing
+that plane does so off the two lines through `o` along `d1` and `d2`, and `o` is not a point of the face; moreover
+neither direction is parallel to a face or rejected by the library's near-parallel test.
+
+Proof (`M3d/Lemmas/CollideJordan.lean`): in the wedge coordinates of the plane through the two rays each face
+contributes an even number to (edges of the face piercing the open wedge) + (rays meeting the face) — the quadrant
+lemma for the segment in which the face meets the plane —, and the edge terms cancel over a closed mesh. -/
+theorem parity_direction_independent (sqrtF : K → K) (eps : K) (faces : List (Tri K)) (o d1 d2 : V3 K)
+    (admits : V3 K × V3 K → Bool) (ha1 : admits (o, d1) = true) (ha2 : admits (o, d2) = true)
+    (hnn : wNN d1 d2 ≠ 0) (hcl : ClosedMesh faces) (hgp : ∀ F ∈ faces, faceGP o d1 d2 F)
+    (hnp1 : ∀ F ∈ faces, ¬ triNearPar sqrtF eps F.1 F.2.1 F.2.2 d1)
+    (hnp2 : ∀ F ∈ faces, ¬ triNearPar sqrtF eps F.1 F.2.1 F.2.2 d2)
+    (hpar1 : ∀ F ∈ faces, (facePlane F).1.dot d1 ≠ 0) (hpar2 : ∀ F ∈ faces, (facePlane F).1.dot d2 ≠ 0) :
+    ((joined Hit.t admits (faces.map fun F => triCollider sqrtF eps F.1 F.2.1 F.2.2)).ray (o, d1) false).1 % 2 =
+      ((joined Hit.t admits (faces.map fun F => triCollider sqrtF eps F.1 F.2.1 F.2.2)).ray (o, d2) false).1 % 2 := by
+  rw [meshTs_length sqrtF eps faces o d1 admits ha1, meshTs_length sqrtF eps faces o d2 admits ha2]
+  exact meshTs_parity_indep sqrtF eps faces o d1 d2 hnn hcl hgp hnp1 hnp2 hpar1 hpar2
+
+/-- **`parity_inside_closed_mesh`** — "the count is odd exactly when the ray starts inside", for closed triangle
+meshes with the library's own notion of inside: `ColliderContains(c, o, 0)` (even-odd containment along the fixed
+direction `cdir`; model `colliderContains`, tied by the `containx` correspondence).  For every ray from `o` that is,
+together with the fixed direction, in general position with respect to the closed mesh, the number of reported
+collisions is odd iff `ColliderContains` answers `true` — i.e. the answer of `ColliderContains` does not depend on
+the direction it happens to use, and every general-position ray agrees with it. -/
+theorem parity_inside_closed_mesh (sqrtF : K → K) (eps : K) (faces : List (Tri K)) (o d cdir : V3 K)
+    (sphere : V3 K → K → Bool) (admits : V3 K × V3 K → Bool) (ha1 : admits (o, d) = true)
+    (ha2 : admits (o, cdir) = true) (hnn : wNN d cdir ≠ 0) (hcl : ClosedMesh faces)
+    (hgp : ∀ F ∈ faces, faceGP o d cdir F)
+    (hnp1 : ∀ F ∈ faces, ¬ triNearPar sqrtF eps F.1 F.2.1 F.2.2 d)
+    (hnp2 : ∀ F ∈ faces, ¬ triNearPar sqrtF eps F.1 F.2.1 F.2.2 cdir)
+    (hpar1 : ∀ F ∈ faces, (facePlane F).1.dot d ≠ 0) (hpar2 : ∀ F ∈ faces, (facePlane F).1.dot cdir ≠ 0) :
+    ((joined Hit.t admits (faces.map fun F => triCollider sqrtF eps F.1 F.2.1 F.2.2)).ray (o, d) true).1 % 2 = 1 ↔
+      colliderContains (joined Hit.t admits (faces.map fun F => triCollider sqrtF eps F.1 F.2.1 F.2.2)).ray
+        sphere cdir o 0 = true := by
+  have h := parity_direction_independent sqrtF eps faces o d cdir admits ha1 ha2 hnn hcl hgp hnp1 hnp2 hpar1 hpar2
+  rw [meshTs_length sqrtF eps faces o d admits ha1 true, ← meshTs_length sqrtF eps faces o d admits ha1 false, h]
+  unfold colliderContains
+  simp only [lt_self_iff_false, if_false, le_refl, decide_true, Bool.true_or]
+  rcases Nat.mod_two_eq_zero_or_one
+    ((joined Hit.t admits (faces.map fun F => triCollider sqrtF eps F.1 F.2.1 F.2.2)).ray (o, cdir) false).1 with h0 | h0
+  · simp [h0]
+  · simp [h0]
+
+/-- non-vacuity: the tetrahedron with the vertices `0, e1, e2, e3` (outward oriented) is a closed mesh, and the
+rays from the interior point `(1/8, 1/8, 1/8)` along `(1, 2, 3)` and `(-2, 1, 5)` are in general position with
+respect to it (all hypotheses of `parity_direction_independent` that do not involve the square root). -/
+example :
+    let v0 : V3 ℚ := ⟨0, 0, 0⟩
+    let v1 : V3 ℚ := ⟨1, 0, 0⟩
+    let v2 : V3 ℚ := ⟨0, 1, 0⟩
+    let v3 : V3 ℚ := ⟨0, 0, 1⟩
+    let faces : List (Tri ℚ) := [(v0, v2, v1), (v0, v1, v3), (v0, v3, v2), (v1, v2, v3)]
+    let o : V3 ℚ := ⟨1/8, 1/8, 1/8⟩
+    let d1 : V3 ℚ := ⟨1, 2, 3⟩
+    let d2 : V3 ℚ := ⟨-2, 1, 5⟩
+    wNN d1 d2 ≠ 0 ∧ ClosedMesh faces ∧ (∀ F ∈ faces, faceGP o d1 d2 F) ∧
+      (∀ F ∈ faces, (facePlane F).1.dot d1 ≠ 0) ∧ (∀ F ∈ faces, (facePlane F).1.dot d2 ≠ 0) := by
+  intro v0 v1 v2 v3 faces o d1 d2
+  refine ⟨by decide +kernel, closedMesh_of_b faces (by decide +kernel), ?_, by decide +kernel, by decide +kernel⟩
+  intro F hF
+  apply faceGP_of_b
+  revert F
+  decide +kernel
+
+/-- `Segment.RayCollisions` (2-D) reports a collision iff the ray meets the closed segment (for a ray that is
+neither parallel to the segment nor rejected as near-parallel). -/
+theorem seg2Hits_length_ind (sqrtF : K → K) (eps : K) (S : Seg K) (o d : V2 K)
+    (hnp : ¬ segNearPar sqrtF eps S.1 S.2 d) (hdet : segDet S.1 S.2 d ≠ 0) :
+    (seg2Hits sqrtF eps S.1 S.2 o d).length = ind (segHits o d S) := by
+  have hpt : ∀ t a, SegEq S.1 S.2 o d t a ↔ o.along d t = segPoint2 S.1 S.2 a := by
+    intro t a
+    simp only [SegEq, V2.along, segPoint2, V2.add, V2.scale, V2.sub, V2.mk.injEq]
+    constructor
+    · rintro ⟨h1, h2⟩; exact ⟨h1.symm, h2.symm⟩
+    · rintro ⟨h1, h2⟩; exact ⟨h1.symm, h2.symm⟩
+  have hlen : (seg2Hits sqrtF eps S.1 S.2 o d).length ≤ 1 := by
+    unfold seg2Hits
+    split
+    · split <;> simp
+    · simp
+  by_cases hr : segHits o d S
+  · rw [ind_true hr]
+    obtain ⟨t, a, ht, ha0, ha1, he⟩ := hr
+    have hl := (segment2d_hit_iff sqrtF eps S.1 S.2 o d hdet t).2 ⟨hnp, a, (hpt t a).2 he, ha0, ha1, ht⟩
+    have : ((seg2Hits sqrtF eps S.1 S.2 o d).map Hit2.t).length = 1 := by rw [hl]; rfl
+    simpa using this
+  · rw [ind_false hr]
+    match hq : seg2Hits sqrtF eps S.1 S.2 o d, hlen with
+    | [], _ => rfl
+    | [x], _ =>
+      exfalso; apply hr
+      have hl : (seg2Hits sqrtF eps S.1 S.2 o d).map Hit2.t = [x.t] := by rw [hq]; rfl
+      obtain ⟨_, a, he, ha0, ha1, ht⟩ := (segment2d_hit_iff sqrtF eps S.1 S.2 o d hdet x.t).1 hl
+      exact ⟨x.t, a, ht, ha0, ha1, (hpt _ _).1 he⟩
+    | _ :: _ :: _, hlen => simp at hlen
+
+/-- **`parity_direction_independent_2d`** — the same for `model2d`: for a closed polygon system (every point is
+an end point of an even number of segments) and two rays from the same origin with independent directions in
+general position (no vertex on the two lines through `o` along `d1`, `d2`; `o` on no segment; neither direction
+parallel to a segment or rejected as near-parallel), the 2-D mesh collider (`JoinedCollider` over
+`Segment.RayCollisions`) reports the same number of collisions modulo 2 along both rays — so `model2d`'s
+`ColliderContains` (and the `Solid2D` of `ProfileCollider`) does not depend on the direction it uses. -/
+theorem parity_direction_independent_2d (sqrtF : K → K) (eps : K) (segs : List (Seg K)) (o d1 d2 : V2 K)
+    (admits : V2 K × V2 K → Bool) (ha1 : admits (o, d1) = true) (ha2 : admits (o, d2) = true)
+    (hdet : w2Det d1 d2 ≠ 0) (hcl : ClosedPoly segs) (hgp : ∀ S ∈ segs, segGP o d1 d2 S)
+    (hnp1 : ∀ S ∈ segs, ¬ segNearPar sqrtF eps S.1 S.2 d1) (hnp2 : ∀ S ∈ segs, ¬ segNearPar sqrtF eps S.1 S.2 d2)
+    (hpar1 : ∀ S ∈ segs, segDet S.1 S.2 d1 ≠ 0) (hpar2 : ∀ S ∈ segs, segDet S.1 S.2 d2 ≠ 0) :
+    ((joined Hit2.t admits (segs.map fun S => seg2Collider sqrtF eps S.1 S.2)).ray (o, d1) false).1 % 2 =
+      ((joined Hit2.t admits (segs.map fun S => seg2Collider sqrtF eps S.1 S.2)).ray (o, d2) false).1 % 2 := by
+  have hcount : ∀ d, admits (o, d) = true → (∀ S ∈ segs, ¬ segNearPar sqrtF eps S.1 S.2 d) →
+      (∀ S ∈ segs, segDet S.1 S.2 d ≠ 0) →
+      ((joined Hit2.t admits (segs.map fun S => seg2Collider sqrtF eps S.1 S.2)).ray (o, d) false).1 =
+        (segs.map fun S => ind (segHits o d S)).sum := by
+    intro d ha hnp hpar
+    show (joinedRay admits _ (o, d) false).1 = _
+    rw [joinedRay_eq admits _ (o, d) false ha]
+    simp only [List.map_map]
+    congr 1
+    apply List.map_congr_left
+    intro S hS
+    exact seg2Hits_length_ind sqrtF eps S o d (hnp S hS) (hpar S hS)
+  rw [hcount d1 ha1 hnp1 hpar1, hcount d2 ha2 hnp2 hpar2]
+  have := wedge_parity2 o d1 d2 hdet segs hgp hcl
+  omega
+
+/-- non-vacuity (2-D): the unit square is a closed polygon, and the rays from `(1/3, 1/4)` along `(1, 2)` and
+`(-3, 1)` are in general position with respect to it. -/
+example :
+    let p0 : V2 ℚ := ⟨0, 0⟩
+    let p1 : V2 ℚ := ⟨1, 0⟩
+    let p2 : V2 ℚ := ⟨1, 1⟩
+    let p3 : V2 ℚ := ⟨0, 1⟩
+    let segs : List (Seg ℚ) := [(p0, p1), (p1, p2), (p2, p3), (p3, p0)]
+    let o : V2 ℚ := ⟨1/3, 1/4⟩
+    let d1 : V2 ℚ := ⟨1, 2⟩
+    let d2 : V2 ℚ := ⟨-3, 1⟩
+    w2Det d1 d2 ≠ 0 ∧ ClosedPoly segs ∧ (∀ S ∈ segs, segGP o d1 d2 S) ∧
+      (∀ S ∈ segs, segDet S.1 S.2 d1 ≠ 0) ∧ (∀ S ∈ segs, segDet S.1 S.2 d2 ≠ 0) := by
+  intro p0 p1 p2 p3 segs o d1 d2
+  refine ⟨by decide +kernel, closedPoly_of_b segs (by decide +kernel), ?_, by decide +kernel, by decide +kernel⟩
+  intro S hS
+  apply segGP_of_b
+  revert S
+  decide +kernel
 
 /-! ## (4) ball queries -/
 
